@@ -94,6 +94,13 @@ def store_effect(cn, ev):
             # T[:, col] = v : one column of every row
             fam, elem = cn.index_family(idx[1][1])
             return Effect(ev, "column", base, "ALL-ROWS", fam, elem, d["value"])
+        if idx[0] == "tuple" and len(idx[1]) == 2 and idx[1][0][0] != "slice" \
+                and idx[1][1][0] != "slice" and d["idx"][0] == "tuple":
+            # T[r, c] = v  is  T[r][c] = v : one cell of the row r
+            import copy as _copy
+            ev2 = _copy.copy(ev)
+            ev2.data = dict(d, base=("sub", d["base"], d["idx"][1][0]), idx=d["idx"][1][1])
+            return store_effect(cn, ev2)
         return Effect(ev, "row", base, ("idx", idx), "ROW", "ALL", d["value"])
     if cn._is_vector(base):
         fam, elem = cn.index_family(idx)
